@@ -277,6 +277,19 @@ def run(R, P="C09"):
     R.check(arms_ == want_arms, P + ".ASYNC-CALL", ac.qualname, R.site(ac),
             "async_call dispatches pure / .asynq / .async / plain, in this order, each with the same (*args, **kwargs)",
             "async_call's arms are %s" % arms_)
+    # the asyncio twin: every path ends by returning the (awaited) result of a call that received (*args, **kwargs)
+    aio = repo.fn("decorators.asyncio_call")
+    acfg = cfg_of(aio)
+    good = []
+    for n in acfg.nodes:
+        if n.kind == "stmt" and isinstance(n.ast, ast.Return) and n.ast.value is not None:
+            v = n.ast.value.value if isinstance(n.ast.value, ast.Await) else n.ast.value
+            if isinstance(v, ast.Call) and forwards(v, "args", "kwargs") == "full":
+                good.append(n)
+    p = acfg.find_path([acfg.entry], [acfg.exit], N, cut_nodes=good)
+    R.check(p is None and good, P + ".ASYNC-CALL", aio.qualname + ":returns", R.site(aio),
+            "asyncio_call returns the result of calling fn with (*args, **kwargs) on every path",
+            "asyncio_call can finish without returning the result of calling fn with the caller's arguments", acfg.fmt_path(p) if p else None)
     # ---- CLASSIFY
     for cq in DECORATOR_CLASSES:
         cls = repo.cls(cq)
